@@ -85,18 +85,28 @@ func RunHistory(seed uint64, r *rng.R, work string, opt apphist.Options, cfg Con
 			bz := s.GenTx()
 			if cfg.CheckTx && r.Chance(30) {
 				s.Check(bz)
+				if cfg.Queries && r.Chance(50) {
+					s.QueryTouched(bz)
+				}
 			}
 			if cfg.Queries && r.Chance(40) {
 				s.RandomQuery()
 			}
 			o, _ := s.Deliver(bz)
 			s.After(bz, o)
+			if cfg.Queries && r.Chance(25) {
+				s.QueryTouched(bz)
+			}
 			if r.Chance(6) { // replay the same bytes at once
 				o2, _ := s.Deliver(bz)
 				s.After(bz, o2)
 			}
 			if cfg.CheckTx && r.Chance(20) {
-				s.Check(s.GenTx())
+				cbz := s.GenTx()
+				s.Check(cbz)
+				if cfg.Queries && r.Chance(50) {
+					s.QueryTouched(cbz)
+				}
 			}
 		}
 		if !s.End() {
